@@ -36,6 +36,33 @@ func DrawProfile(t *rapid.T, era Era) Profile {
 	// an arbiter sponsors once per round: it must miss one to three turns
 	p.MaxInactiveRounds = uint32(p.NCRC+p.NNormal) + gap("maxinactive", 1, 8)
 	p.DepositLockupBlocks = gap("lockup", 2, 6)
+	if era >= EraCR {
+		p.CRVotingStart = p.PublicDPOS + gap("g-crvoting", 1, 8)
+		// candidates need 6 confirmations and votes before the first election
+		p.CRCommitteeStart = p.CRVotingStart + gap("g-committee", 8, 14)
+		p.CRClaimStart = p.CRCommitteeStart + gap("g-claim", 0, 8)
+		p.VotingPeriod = gap("votingperiod", 7, 10)
+		p.DutyPeriod = p.VotingPeriod + gap("g-duty", 6, 16)
+		p.CRClaimDPOSNodePeriod = gap("claimnodeperiod", 3, 8)
+		p.CRClaimPeriod = gap("claimperiod", 2, 5)
+		p.ProposalCRVotingPeriod = gap("propcrvoting", 2, 4)
+		p.ProposalPublicVotingPeriod = gap("proppublicvoting", 2, 4)
+		p.CRAgreementCount = uint32(p.NCRC*2/3 + 1)
+		if p.CRAgreementCount > uint32(p.NCRC) {
+			p.CRAgreementCount = uint32(p.NCRC)
+		}
+	}
+	if era >= EraNewCR {
+		p.NewCR = p.CRClaimStart + gap("g-newcr", 2, 10)
+		p.RevertToPOWStart = p.NewCR + gap("g-reverttopow", 0, 4)
+	}
+	if era >= EraV2 {
+		p.DPoSV2Start = p.RevertToPOWStart + gap("g-v2", 3, 10)
+		p.NFTStart = p.DPoSV2Start
+		if rapid.Bool().Draw(t, "recordsponsor") {
+			p.RecordSponsorStart = p.DPoSV2Start + gap("g-recordsponsor", 4, 20)
+		}
+	}
 	if rapid.Bool().Draw(t, "nopenalty") {
 		// mainnet values
 		p.InactivePenalty, p.IllegalPenalty, p.EmergencyInactivePenalty = 0, 0, 0
